@@ -84,7 +84,7 @@ def method_for_year(schedule, year):
 class Hist:
     """symbolic (or concrete) history: per-slot variables plus the rp2 transaction objects built from them"""
 
-    def __init__(self, S, slots, years, prefix="", tz=False, ordered=True, shared_off=None, shared_sym=None, price_k=PRICE_K, price_max=PRICE_MAX, amount_max=AMOUNT_MAX):
+    def __init__(self, S, slots, years, prefix="", tz=False, ordered=True, shared_off=None, shared_sym=None, fixed_t=None, price_k=PRICE_K, price_max=PRICE_MAX, amount_max=AMOUNT_MAX):
         self.S = S
         self.slots = slots
         self.years = tuple(years)
@@ -95,7 +95,11 @@ class Hist:
         self.price_k = price_k
         for i, s in enumerate(slots):
             nm = "%s%d" % (prefix, i)
-            if tz:
+            if fixed_t is not None:
+                # concrete instants (reports that render month/day): only amounts, prices and filter dates stay symbolic
+                off = 0
+                t = fixed_t[i]
+            elif tz:
                 # local wall-clock time stays inside the window; the instant is local - offset
                 off = S.int("o" + nm, -720, 840)
                 t = S.int("t" + nm, t_lo - 840 * 60 * 10**6, t_hi + 720 * 60 * 10**6)
